@@ -108,7 +108,7 @@ class Call:
         self.target = t.get("target")
         self.line = t.get("line")
         self.exp = t.get("exp")
-        self.closure_body = t.get("closure_body")
+        self.closure_body = strip_generics(t.get("closure_body"))
         self.fty = t.get("fty")
 
     @property
@@ -134,10 +134,11 @@ class Body:
     def __init__(self, j, crate):
         self.j = j
         self.crate = crate
-        self.path = j["path"]
+        self.raw_path = j["path"]
+        self.path = strip_generics(j["path"])
         self.kind = j["kind"]
         self.coroutine = j["coroutine"]
-        self.parent = j["parent"]
+        self.parent = strip_generics(j["parent"])
         self.file = j["file"]
         self.line = j["line"]
         self.argc = j["argc"]
@@ -517,7 +518,7 @@ class Origins:
             if ak == "adt":
                 return ("agg", "adt", rv["adt"] + "::" + rv["variant"], ops, tuple(rv.get("fields", [])))
             if ak in ("closure", "coroutine", "coroutine_closure"):
-                return ("agg", ak, rv["body"], ops, ())
+                return ("agg", ak, strip_generics(rv["body"]), ops, ())
             return ("agg", ak, "", ops, ())
         if k == "repeat":
             return ("repeat", self.of_operand(rv["op"], depth, seen), rv["n"])
@@ -734,6 +735,22 @@ class Program:
                             out.append((b, i))
         return out
 
+    def impl_methods(self, type_name, trait_name, method):
+        """Bodies `<Type<..> as ..Trait<..>>::method` (trait impl methods), matched structurally."""
+        out = []
+        for p, b in self.bodies.items():
+            if not p.startswith("<") or b.kind != "AssocFn":
+                continue
+            m = re.match(r"^<(.+) as (.+)>::([A-Za-z0-9_]+)$", b.path)
+            if not m:
+                continue
+            ty, tr, me = m.groups()
+            ty0 = re.split(r"[<]", ty, 1)[0].lstrip("&").strip()
+            tr0 = re.split(r"[<]", tr, 1)[0]
+            if me == method and (ty0 == type_name or ty0.endswith("::" + type_name)) and (tr0 == trait_name or tr0.endswith("::" + trait_name)):
+                out.append(b)
+        return out
+
     def impls_of(self, trait_spec):
         return [im for im in self.impls if im["trait"] and name_matches(strip_generics(im["trait"]), trait_spec)]
 
@@ -762,8 +779,8 @@ class Program:
                     continue
                 rv = s["rv"]
                 if rv["k"] == "agg" and rv["ak"] in ("closure", "coroutine", "coroutine_closure"):
-                    if rv["body"] in self.bodies:
-                        out.add(rv["body"])
+                    if strip_generics(rv["body"]) in self.bodies:
+                        out.add(strip_generics(rv["body"]))
                 for op in rvalue_operands(rv):
                     if op.get("k") == "const" and "fn" in op:
                         for n in (strip_generics(op.get("res")), strip_generics(op["fn"])):
